@@ -104,6 +104,40 @@ impl<'a> Tr<'a> {
                     Pat::Type(pt) => (&*pt.pat, Some(self.ty(&pt.ty)?)),
                     p => (p, None),
                 };
+                if let (Expr::Closure(cl), Pat::Ident(pi)) = (&*init.expr, pat) {
+                    // a local closure becomes a local Gallina function; parameters need type annotations
+                    let mut env2 = env.clone();
+                    let mut binders = String::new();
+                    let mut ptys = vec![];
+                    for inp in cl.inputs.iter() {
+                        match inp {
+                            Pat::Type(pt) => {
+                                let t = self.ty(&pt.ty)?;
+                                match &*pt.pat {
+                                    Pat::Ident(i) if i.subpat.is_none() => {
+                                        let c = self.fresh(&i.ident.to_string());
+                                        binders.push_str(&format!(" ({} : {})", c, self.t.coq_ty(&t)?));
+                                        env2.push(&i.ident.to_string(), Var { coq: c, ty: t.clone() });
+                                    }
+                                    _ => return Err(unsupported(first, "closure parameter that is not `name: type`")),
+                                }
+                                ptys.push(t);
+                            }
+                            _ => return Err(unsupported(first, "closure parameter without a type annotation")),
+                        }
+                    }
+                    let rhint = match &cl.output {
+                        ReturnType::Type(_, t) => Some(self.ty(t)?),
+                        ReturnType::Default => None,
+                    };
+                    let body = self.pure(&cl.body, &env2, rhint.as_ref())?;
+                    let n = pi.ident.to_string();
+                    let c = self.fresh(&n);
+                    let mut env3 = env.clone();
+                    env3.push(&n, Var { coq: c.clone(), ty: Ty::Fn(ptys, Box::new(body.ty.clone())) });
+                    let r = self.stmts_k(rest, &env3, hint, k)?;
+                    return Ok(let_in(&c, true, &format!("(fun{} =>\n{})", binders, body.s), &r));
+                }
                 self.expr_k(&init.expr, env, ann.as_ref(), &|tr, v| {
                     let vty = match &ann {
                         Some(a) => join(&v.ty, a).map_err(|m| unsupported(first, &m))?,
@@ -324,6 +358,9 @@ impl<'a> Tr<'a> {
         match &base.ty {
             Ty::Adt(n) => {
                 let s = self.t.struct_info(n).ok_or_else(|| unsupported(at, "field assignment on a non-struct"))?;
+                if s.ctor == "-" || s.fields.iter().any(|f| f.proj == "-") {
+                    return Err(unsupported(at, &format!("field assignment on `{}`, which is only partially mapped", n)));
+                }
                 if !s.fields.iter().any(|f| f.name == fname) {
                     return Err(unsupported(at, &format!("`{}` has no field `{}`", n, fname)));
                 }
